@@ -61,6 +61,11 @@ fn style_json(s: &Style) -> Value {
            "eff":EFFECTS.iter().filter(|(_, f)| s.get_effects().contains(*f)).map(|(n, _)| json!(n)).collect::<Vec<_>>()})
 }
 
+/// a panic inside a conversion is data: the rendering "<panic>" (no marker in it, so the specification rejects it)
+fn render_guarded(lib: &str, s: Style) -> Vec<u8> {
+    std::panic::catch_unwind(std::panic::AssertUnwindSafe(|| render(lib, s))).unwrap_or_else(|_| b"<panic>".to_vec())
+}
+
 fn render(lib: &str, s: Style) -> Vec<u8> {
     match lib {
         "ansi_term" => anstyle_ansi_term::to_ansi_term(s).paint("X").to_string().into_bytes(),
@@ -178,11 +183,11 @@ fn record(seed: u64, thorough: bool, shards: usize, prefix: &str) -> Value {
             }
         }
         let mut emit = |s: Style| {
-            let ev = json!({"lib":lib,"st":style_json(&s),"bytes":render(lib, s)});
+            let ev = json!({"lib":lib,"st":style_json(&s),"bytes":render_guarded(lib, s)});
             writeln!(files[n % shards], "{ev}").unwrap();
             n += 1;
             if lib == "termcolor" {
-                let ev = json!({"lib":lib,"after_prior_style":true,"st":style_json(&s),"bytes":render("termcolor_after", s)});
+                let ev = json!({"lib":lib,"after_prior_style":true,"st":style_json(&s),"bytes":render_guarded("termcolor_after", s)});
                 writeln!(files[n % shards], "{ev}").unwrap();
                 n += 1;
             }
@@ -313,6 +318,7 @@ fn clap_flags() -> Value {
 }
 
 fn main() {
+    std::panic::set_hook(Box::new(|_| {}));
     let args: Vec<String> = std::env::args().collect();
     match args.get(1).map(|s| s.as_str()) {
         Some("record") => println!("{}", record(args[2].parse().unwrap(), args[3] == "1", args[4].parse().unwrap(), &args[5])),
